@@ -79,12 +79,44 @@ def rules():
                                                                                           'verit_norm_lia', 'verit_norm_lra', 'verit_round_lia'))
 
 
+def arith_pool():
+    """equations and clauses of the arithmetic simplification rules, right and wrong, at int and real"""
+    if 'arith' in _P:
+        return _P['arith']
+    from kernel.term import Var, And, Or, Not, Eq, true, false
+    from kernel import term as kt
+    from kernel.type import IntType, RealType
+    from logic import logic
+    out = []
+    for T in (IntType, RealType):
+        x, y = Var('x', T), Var('y', T)
+        n = lambda k: kt.Number(T, k)
+        le, lt, ge, gt = kt.less_eq(T), kt.less(T), kt.greater_eq(T), kt.greater(T)
+        out += [Eq(Eq(x, y), And(le(x, y), le(y, x))), Eq(Eq(x, y), And(le(x, y), lt(y, x))), Eq(Eq(x, y), le(x, y)),
+                Or(Eq(x, y), Not(le(x, y)), Not(le(y, x))), Or(Eq(x, y), Not(le(x, y)), le(y, x)), Or(Eq(x, y), Not(le(x, y))),
+                Eq(lt(x, x), false), Eq(le(x, x), true), Eq(le(x, x), false), Eq(lt(x, y), Not(le(y, x))), Eq(lt(x, y), Not(lt(y, x))),
+                Eq(ge(x, y), le(y, x)), Eq(gt(x, y), lt(y, x)), Eq(gt(x, y), le(y, x)), Eq(lt(n(1), n(2)), true), Eq(lt(n(2), n(1)), true),
+                Eq(le(n(2), n(2)), true), Eq(x + n(0), x), Eq(n(0) + x, x), Eq(x + n(1), x), Eq(n(1) + n(2), n(3)), Eq(n(1) + n(2), n(4)),
+                Eq(n(0) * x, n(0)), Eq(n(1) * x, x), Eq(n(2) * x, x), Eq(x * n(0), n(0)), Eq(n(2) * n(3), n(6)), Eq(n(2) * n(3), n(5)),
+                Eq(x - x, n(0)), Eq(x - n(0), x), Eq(n(0) - x, -x), Eq(x - y, y - x), Eq(n(3) - n(1), n(2)), Eq(n(3) - n(1), n(1)),
+                Eq(-(-x), x), Eq(-x, x), Eq(-(n(1)), n(-1)), Eq(Eq(x, x), true), Eq(Eq(n(2), n(3)), false), Eq(Eq(n(2), n(2)), false),
+                Eq(Not(Eq(x, x)), false), Eq(logic.mk_if(true, x, y), x), Eq(logic.mk_if(false, x, y), x), Eq(logic.mk_if(le(x, y), x, x), x),
+                Eq(logic.mk_if(le(x, y), x, y), y)]
+        if T == RealType:
+            dv = lambda a, b: kt.Const('real_divide', kt.TFun(T, T, T))(a, b)
+            out += [Eq(dv(x, n(1)), x), Eq(dv(x, x), n(1)), Eq(dv(n(6), n(3)), n(2)), Eq(dv(n(6), n(3)), n(3)), Eq(dv(x, n(2)), x),
+                    Eq(dv(n(0), x), n(0)), Eq(dv(x, n(-1)), -x)]
+    _P['arith'] = out
+    return out
+
+
 def cases(tier):
     for r in rules():
         if r in SPECIAL:
             continue
         for part in range(8):
             yield ['blind', r, part]
+    yield ['arith', 0]
     for f in corpus_files():
         if tier == 'quick' and os.path.getsize(os.path.join(CORPUS, f)) > 4000:
             continue
@@ -235,6 +267,28 @@ def run_blind(case, tier):
                 if cls == 'consequence':
                     n_acc += 1
     return Outcome('accepted-all-consequences' if n_acc else 'nothing-accepted', n_acc > 0, obs='%s/%d:%d' % (rule, part, n_acc))
+
+
+def run_arith(case, tier):
+    """every rule on every one-literal clause of the arithmetic pool, without premises"""
+    from kernel import theory
+    n_acc = 0
+    for rule in rules():
+        if rule in SPECIAL:
+            continue
+        macro = theory.get_macro(rule)
+        for t in arith_pool():
+            res = try_eval(macro, (t,), [])
+            cnt('arithmetic pool: tuples given to eval')
+            if res is None:
+                continue
+            cls, bad = judge(rule, (lambda t=t: '(%s)' % t), [], res)
+            cnt('arithmetic pool: accepted judged ' + cls)
+            if bad:
+                return Outcome(cls, violation=bad)
+            if cls == 'consequence':
+                n_acc += 1
+    return Outcome('accepted-all-consequences' if n_acc else 'nothing-accepted', n_acc > 0, obs='arith:%d' % n_acc)
 
 
 # ------------------------------------------------------------------------------ solver-produced steps and their near misses
@@ -561,4 +615,6 @@ def run(case):
         return run_blind(case, _TIER[0])
     if case[0] == 'corpus':
         return run_corpus(case, _TIER[0])
+    if case[0] == 'arith':
+        return run_arith(case, _TIER[0])
     return run_guided(case, _TIER[0])
